@@ -214,6 +214,15 @@ pub fn idiom_sort_by_number(v: &mut Vec<SplitPacket>)
 /// the A2S request datagram: FF FF FF FF, kind, payload
 pub open spec fn a2s_request(kind: u8, payload: Seq<u8>) -> Seq<u8> { seq![0xFFu8, 0xFFu8, 0xFFu8, 0xFFu8].push(kind) + payload }
 
+/// every datagram appended to the send log since index `from` is an A2S request of kind `kind`
+pub open spec fn is_req_of_kind(d: Seq<u8>, kind: u8) -> bool { exists|p: Seq<u8>| d == a2s_request(kind, p) }
+pub open spec fn only_kind_since(sent: Seq<Seq<u8>>, from: int, kind: u8) -> bool {
+    forall|i: int| from <= i < sent.len() ==> is_req_of_kind(#[trigger] sent[i], kind)
+}
+/// the send log only grew (prefix preserved)
+pub open spec fn grew(old_sent: Seq<Seq<u8>>, new_sent: Seq<Seq<u8>>) -> bool {
+    old_sent.len() <= new_sent.len() && forall|i: int| 0 <= i < old_sent.len() ==> #[trigger] new_sent[i] == old_sent[i]
+}
 impl ValveProtocol {
 /*@ fn file=crates/lib/src/protocols/valve/protocol.rs impl="impl ValveProtocol" name=receive props=C01,C13,C02,C08
 use R16 R17 R18 R8:sort_by_field R8:extend_vec
@@ -260,6 +269,9 @@ spec {
                  && final(self).socket.sent()[old(self).socket.sent().len() as int] == a2s_request(kind, payload@),
         // C13: requests sent <= 1 + datagrams received
         final(self).socket.sent().len() - old(self).socket.sent().len() <= 1 + (final(self).socket.recvd() - old(self).socket.recvd()),
+        // C09/C11: nothing but requests of this kind is ever sent
+        grew(old(self).socket.sent(), final(self).socket.sent()),
+        only_kind_since(final(self).socket.sent(), old(self).socket.sent().len() as int, kind),
 }
 body_start {
     broadcast use lemma_dec_enc_u32, lemma_enc_len_u32;
@@ -273,7 +285,22 @@ loop 1 {
         self.socket.sent().len() >= sent0.len() + 1,
         self.socket.sent()[sent0.len() as int] == a2s_request(kind, payload@),
         self.socket.sent().len() - sent0.len() <= (self.socket.recvd() - recvd0),
+        grew(sent0, self.socket.sent()), only_kind_since(self.socket.sent(), sent0.len() as int, kind),
     decreases self.socket.pending(),
+}
+after "self.socket.send(&request_initial_packet)?;" {
+    proof {
+        assert(self.socket.sent() == sent0.push(request_initial_packet@));
+        assert(request_initial_packet@ == a2s_request(kind, payload@));
+        assert(is_req_of_kind(request_initial_packet@, kind));
+        assert(only_kind_since(self.socket.sent(), sent0.len() as int, kind));
+    }
+}
+after "self.socket.send(&challenge_packet)?;" {
+    proof {
+        assert(is_req_of_kind(challenge_packet@, kind));
+        assert(only_kind_since(self.socket.sent(), sent0.len() as int, kind));
+    }
 }
 before "self.socket.send(&challenge_packet)?;" {
     // challenge echo: the datagram about to be sent is the request of the same kind carrying exactly the bytes of the
@@ -360,6 +387,8 @@ spec {
         r is Ok <==> a2s_exchange(*old(self), *engine, protocol, kind, payload@) is Ok,
         r is Ok ==> r->Ok_0@ == a2s_exchange(*old(self), *engine, protocol, kind, payload@)->Ok_0,
         r is Err ==> r->Err_0.kind == a2s_exchange(*old(self), *engine, protocol, kind, payload@)->Err_0,
+        grew(old(self).socket.sent(), final(self).socket.sent()),
+        only_kind_since(final(self).socket.sent(), old(self).socket.sent().len() as int, kind),
 }
 @*/
 /*@ fn file=crates/lib/src/protocols/valve/protocol.rs impl="impl ValveProtocol" name=get_kind_request_data props=C09,C01
@@ -372,6 +401,8 @@ spec {
         r is Ok <==> a2s_reply(*old(self), *engine, protocol, kind) is Ok,
         r is Ok ==> r->Ok_0@ == a2s_reply(*old(self), *engine, protocol, kind)->Ok_0,
         r is Err ==> r->Err_0.kind == a2s_reply(*old(self), *engine, protocol, kind)->Err_0,
+        grew(old(self).socket.sent(), final(self).socket.sent()),
+        only_kind_since(final(self).socket.sent(), old(self).socket.sent().len() as int, req_code(kind)),
 }
 @*/
 }
@@ -429,6 +460,8 @@ fn_attrs {
 spec {
     ensures
         final(self).retry_count == old(self).retry_count,
+        grew(old(self).socket.sent(), final(self).socket.sent()),
+        only_kind_since(final(self).socket.sent(), old(self).socket.sent().len() as int, 0x54u8),
         a2s_reply(*old(self), *engine, 0, Request::Info) is Err ==> r is Err && r->Err_0.kind == a2s_reply(*old(self), *engine, 0, Request::Info)->Err_0,
         // Source layout (also used for GoldSrc(false)): left inverse of the documented encoding
         forall|s: SrcInfo| !(*engine == Engine::GoldSrc(true)) && src_valid(s)
@@ -462,6 +495,182 @@ after "let gid" {
 }
 @*/
 }
+
+// ---------------- A2S_PLAYER (Valve wiki): Players byte; per player: Index byte, Name string, Score long, Duration float;
+// The Ship: Deaths long, Money long ----------------
+pub struct PlayerSt { pub index: u8, pub name: Seq<char>, pub score: i32, pub duration: f32, pub deaths: u32, pub money: u32 }
+pub open spec fn enc_players(ps: Seq<PlayerSt>, i: int, ship: bool, tail: Seq<u8>) -> Seq<u8>
+    decreases ps.len() - i
+{
+    if i < 0 || i >= ps.len() { tail } else {
+        rn!(seq![ps[i].index]; cstr(ps[i].name); enc_i32(true, ps[i].score); enc_f32(true, ps[i].duration);
+            if ship { rn!(enc_u32(true, ps[i].deaths); enc_u32(true, ps[i].money); enc_players(ps, i + 1, ship, tail)) }
+            else { enc_players(ps, i + 1, ship, tail) })
+    }
+}
+pub open spec fn enc_players_reply(ps: Seq<PlayerSt>, ship: bool) -> Seq<u8> { cat(seq![ps.len() as u8], enc_players(ps, 0, ship, Seq::empty())) }
+pub open spec fn players_valid(ps: Seq<PlayerSt>) -> bool { ps.len() <= 255 && forall|j: int| 0 <= j < ps.len() ==> no_nul(#[trigger] ps[j].name) }
+pub open spec fn player_matches(p: ServerPlayer, s: PlayerSt, ship: bool) -> bool {
+    p.name@ == s.name && p.score == s.score && p.duration == s.duration
+    && (ship ==> p.deaths == Some(s.deaths) && p.money == Some(s.money))
+    && (!ship ==> p.deaths is None && p.money is None)
+}
+
+impl ValveProtocol {
+/*@ fn file=crates/lib/src/protocols/valve/protocol.rs impl="impl ValveProtocol" name=get_server_players props=C02,C01,C13
+use R16 R17 R18
+fn_attrs {
+#[verifier::loop_isolation(false)]
+}
+spec {
+    ensures
+        final(self).retry_count == old(self).retry_count,
+        grew(old(self).socket.sent(), final(self).socket.sent()),
+        only_kind_since(final(self).socket.sent(), old(self).socket.sent().len() as int, 0x55u8),
+        a2s_reply(*old(self), *engine, protocol, Request::Players) is Err ==> r is Err && r->Err_0.kind == a2s_reply(*old(self), *engine, protocol, Request::Players)->Err_0,
+        forall|ps: Seq<PlayerSt>| players_valid(ps)
+            && a2s_reply(*old(self), *engine, protocol, Request::Players) == Ok::<Seq<u8>, GDErrorKind>(#[trigger] enc_players_reply(ps, is_ship(*engine)))
+            ==> r is Ok && r->Ok_0@.len() == ps.len()
+                && forall|j: int| 0 <= j < ps.len() ==> player_matches(#[trigger] r->Ok_0@[j], ps[j], is_ship(*engine)),
+}
+body_start {
+    broadcast use group_cstr, group_wire, group_alloc;
+}
+loop 1 {
+    invariant
+        buffer.wf(), buffer.bytes() == data@, self.retry_count == old(self).retry_count,
+        players@.len() == verif_it1.index@,
+        forall|ps: Seq<PlayerSt>| players_valid(ps) && data@ == #[trigger] enc_players_reply(ps, is_ship(*engine))
+            ==> count == ps.len() && buffer.rest() == enc_players(ps, verif_it1.index@ as int, is_ship(*engine), Seq::empty())
+                && forall|j: int| 0 <= j < verif_it1.index@ ==> player_matches(#[trigger] players@[j], ps[j], is_ship(*engine)),
+}
+@*/
+}
+
+// ---------------- A2S_RULES (Valve wiki): Rules short; per rule: Name string, Value string ----------------
+pub open spec fn enc_rules(rs: Seq<(Seq<char>, Seq<char>)>, i: int, tail: Seq<u8>) -> Seq<u8>
+    decreases rs.len() - i
+{
+    if i < 0 || i >= rs.len() { tail } else { rn!(cstr(rs[i].0); cstr(rs[i].1); enc_rules(rs, i + 1, tail)) }
+}
+pub open spec fn enc_rules_reply(rs: Seq<(Seq<char>, Seq<char>)>) -> Seq<u8> { cat(enc_u16(true, rs.len() as u16), enc_rules(rs, 0, Seq::empty())) }
+pub open spec fn rules_valid(rs: Seq<(Seq<char>, Seq<char>)>) -> bool {
+    rs.len() <= 65535 && forall|j: int| 0 <= j < rs.len() ==> no_nul(#[trigger] rs[j].0) && no_nul(rs[j].1)
+}
+/// the map obtained by inserting the pairs in order (a later duplicate replaces an earlier one)
+pub open spec fn map_of(ins: Seq<(String, String)>) -> Map<String, String>
+    decreases ins.len()
+{
+    if ins.len() == 0 { Map::empty() } else { map_of(ins.drop_last()).insert(ins.last().0, ins.last().1) }
+}
+
+impl ValveProtocol {
+/*@ fn file=crates/lib/src/protocols/valve/protocol.rs impl="impl ValveProtocol" name=get_server_rules props=C02,C01,C13
+use R16 R17 R18
+fn_attrs {
+#[verifier::loop_isolation(false)]
+}
+spec {
+    ensures
+        final(self).retry_count == old(self).retry_count,
+        grew(old(self).socket.sent(), final(self).socket.sent()),
+        only_kind_since(final(self).socket.sent(), old(self).socket.sent().len() as int, 0x56u8),
+        a2s_reply(*old(self), *engine, protocol, Request::Rules) is Err ==> r is Err && r->Err_0.kind == a2s_reply(*old(self), *engine, protocol, Request::Rules)->Err_0,
+        forall|rs: Seq<(Seq<char>, Seq<char>)>| rules_valid(rs)
+            && a2s_reply(*old(self), *engine, protocol, Request::Rules) == Ok::<Seq<u8>, GDErrorKind>(#[trigger] enc_rules_reply(rs))
+            ==> r is Ok && exists|ins: Seq<(String, String)>| ins.len() == rs.len()
+                    && (forall|j: int| 0 <= j < rs.len() ==> (#[trigger] ins[j]).0@ == rs[j].0 && ins[j].1@ == rs[j].1)
+                    && (*engine != Engine::Source(Some((632_360u32, None::<u32>))) ==> r->Ok_0@ == map_of(ins)),
+}
+body_start {
+    broadcast use group_cstr, group_wire, group_alloc, vstd::std_specs::hash::group_hash_axioms, axiom_string_obeys_key_model;
+    let ghost mut ins: Seq<(String, String)> = Seq::empty();
+}
+before "rules.insert(name, value);" {
+    let ghost prev = ins;
+    proof { ins = ins.push((name, value)); assert(ins.drop_last() =~= prev); assert(ins.last() == (name, value)); }
+}
+loop 1 {
+    invariant
+        buffer.wf(), buffer.bytes() == data@, self.retry_count == old(self).retry_count,
+        ins.len() == verif_it1.index@, rules@ == map_of(ins),
+        forall|rs: Seq<(Seq<char>, Seq<char>)>| rules_valid(rs) && data@ == #[trigger] enc_rules_reply(rs)
+            ==> count == rs.len() && buffer.rest() == enc_rules(rs, verif_it1.index@ as int, Seq::empty())
+                && forall|j: int| 0 <= j < verif_it1.index@ ==> (#[trigger] ins[j]).0@ == rs[j].0 && ins[j].1@ == rs[j].1,
+}
+@*/
+}
+
+// ---------------- C11: gather toggles and app-id check (get_response) ----------------
+/*@ item file=crates/lib/src/protocols/types.rs kind=enum name=GatherToggle
+attrs {
+#[derive(PartialEq, Eq, Structural, Clone, Copy)]
+}
+@*/
+pub mod protocols { pub mod types { pub use crate::GatherToggle; } }
+/*@ item file=crates/lib/src/protocols/valve/types.rs kind=struct name=GatheringSettings @*/
+/*@ item file=crates/lib/src/protocols/valve/types.rs kind=struct name=Response @*/
+// std::net::SocketAddr and TimeoutSettings are opaque here; constructing the client (socket creation) is foreign code
+#[verifier::external_body]
+pub struct SocketAddr { _p: core::marker::PhantomData<()> }
+#[verifier::external_body]
+pub struct TimeoutSettings { _p: core::marker::PhantomData<()> }
+impl ValveProtocol {
+    // assumed: a fresh client has sent nothing yet
+    #[verifier::external_body]
+    pub fn new(address: &SocketAddr, timeout_settings: Option<TimeoutSettings>) -> (r: GDResult<Self>)
+        ensures r is Ok ==> r->Ok_0.socket.sent() == Seq::<Seq<u8>>::empty()
+    { unimplemented!() }
+}
+/// no datagram of the given kind in the log
+pub open spec fn never_sent(sent: Seq<Seq<u8>>, kind: u8) -> bool { forall|i: int| 0 <= i < sent.len() ==> !is_req_of_kind(#[trigger] sent[i], kind) }
+pub open spec fn expected_app(engine: Engine, appid: u32) -> bool {
+    match engine {
+        Engine::Source(Some((a, d))) => a == appid || d == Some(appid),
+        _ => true,     // Source(None) and GoldSrc carry no expectation
+    }
+}
+pub proof fn lemma_kinds_distinct(d: Seq<u8>, k1: u8, k2: u8)
+    requires is_req_of_kind(d, k1), k1 != k2
+    ensures !is_req_of_kind(d, k2)
+{
+    let p1 = choose|p: Seq<u8>| d == a2s_request(k1, p);
+    if is_req_of_kind(d, k2) {
+        let p2 = choose|p: Seq<u8>| d == a2s_request(k2, p);
+        assert(a2s_request(k1, p1)[4] == k1);
+        assert(a2s_request(k2, p2)[4] == k2);
+    }
+}
+
+/*@ fn file=crates/lib/src/protocols/valve/protocol.rs name=get_response props=C11,C01,C02
+use R1 R4:maybe_gather@crates/lib/src/utils.rs
+spec {
+    ensures
+        // app-id check: with checking on, a response is only returned for an expected app id, otherwise BadGame ...
+        r is Ok && gather_settings.check_app_id ==> expected_app(engine, r->Ok_0.info.appid),
+        // sections set to Skip are absent
+        r is Ok && gather_settings.players == GatherToggle::Skip ==> r->Ok_0.players is None,
+        r is Ok && gather_settings.rules == GatherToggle::Skip ==> r->Ok_0.rules is None,
+        // sections set to Enforce are present in every returned response (their failure fails the query)
+        r is Ok && gather_settings.players == GatherToggle::Enforce ==> r->Ok_0.players is Some,
+        r is Ok && gather_settings.rules == GatherToggle::Enforce ==> r->Ok_0.rules is Some,
+}
+tail {
+    proof {
+        // Skip => that section was never requested on the wire (the log holds only info requests and the sections asked for)
+        let sent = client.socket.sent();
+        assert forall|i: int| 0 <= i < sent.len() implies
+            (gather_settings.players == GatherToggle::Skip ==> !is_req_of_kind(#[trigger] sent[i], 0x55u8))
+            && (gather_settings.rules == GatherToggle::Skip ==> !is_req_of_kind(sent[i], 0x56u8)) by {
+            if is_req_of_kind(sent[i], 0x54u8) { lemma_kinds_distinct(sent[i], 0x54u8, 0x55u8); lemma_kinds_distinct(sent[i], 0x54u8, 0x56u8); }
+            if is_req_of_kind(sent[i], 0x55u8) { lemma_kinds_distinct(sent[i], 0x55u8, 0x56u8); }
+            if is_req_of_kind(sent[i], 0x56u8) { lemma_kinds_distinct(sent[i], 0x56u8, 0x55u8); }
+        }
+        assert(gather_settings.players == GatherToggle::Skip ==> never_sent(sent, 0x55u8));
+        assert(gather_settings.rules == GatherToggle::Skip ==> never_sent(sent, 0x56u8));
+    }
+}
+@*/
 //@ body-end
 } // verus!
 fn main() {}
